@@ -25,6 +25,7 @@ MODS = {
     "serde": "utils::serde",
     "channel": "channel",
     "aes_rng": "crypto::aes_rng",
+    "aes_hash": "crypto::aes_hash",
     "fpre": "mpc::fpre",
     "file_or_mem_buf": "utils::file_or_mem_buf",
 }
@@ -75,6 +76,10 @@ for v, t, to in (("regs01", "quick", 1200), ("regs11", "quick", 900), ("regs10",
       what="output opening at an output party: Ok(bits) => every peer output share present, MAC verified under own key/delta, bit == value ^ own share ^ peer share, one bit per output position",
       bounds=f"n=2, max_reg_count=2, output registers {v[-2]},{v[-1]} (duplicates / unsorted covered by the variants), all shares/MACs/keys/delta symbolic 128-bit, peer Option pattern free",
       functions=["mpc::protocol::output (tail segment)"], panic_prop="C08")
+H("protocol", "c02_output_tail_n3", timeout=1200, needs_segment=["output_tail"],
+  what="output opening with two peers: Ok => both peers' shares present + MAC-verified for every output register; bit == value ^ all mask shares", bounds="n=3, own index 0, output registers (1,0), all values symbolic", functions=["mpc::protocol::output (tail segment)"], panic_prop="C08")
+H("protocol", "c03_ip_mid_n3", needs_segment=["ip_mid"],
+  what="input sharing with two peers: Ok => both peers' mask shares present + MAC-verified; masked == input ^ all mask shares", bounds="n=3, own index 0, one own input wire", functions=["mpc::protocol::input_processing (segment between scatter and broadcast)"], panic_prop="C08")
 H("protocol", "c05_output_tail_non_output_party_gets_nothing", needs_segment=["output_tail"],
   what="a party outside p_out returns an empty vector from the opening", bounds="n=2, p_out=[1], own index 0", functions=["mpc::protocol::output (tail segment)"], panic_prop="C08")
 for v, t in (("regs01", "quick"), ("regs11", "quick")):
@@ -98,6 +103,12 @@ for row, tier in ((0, "quick"), (1, "thorough"), (2, "thorough"), (3, "quick")):
 H("protocol", "c01_and_gate_table_n2", needs_segment=["garbler_rows", "evaluator_rows", "garbler_row_labels"],
   what="authenticated garbled table of one AND gate, garbler + evaluator rows + row labels: row_i bits XOR to (a^lx)(b^ly)^lg, row shares carry valid MACs (incl. row-3 key correction), row label ^ evaluator MAC == label0 ^ value*delta",
   bounds="n=2, all bits/MACs/keys/both deltas/label symbolic 128-bit, all 4 rows", functions=["mpc::protocol::garble (garbler row construction, evaluator row construction, row labels)"], panic_prop="C01")
+H("protocol", "c01_free_xor_not_garbler_labels", needs_segment=["garble_garbler_full"],
+  what="garbler side of free XOR / NOT with register reuse: zero-labels L(xor)=L(x)^L(y), L(not)=L(x)^delta, untouched registers keep their label", bounds="Input, Input, XOR, NOT (register reuse); random() = arbitrary values in call order", functions=["mpc::protocol::garble (state set-up + garbler loop)"], panic_prop="C01")
+H("protocol", "c01_free_xor_evaluator_labels", needs_segment=["evaluate_loop"],
+  what="evaluator loop, Input/Input/XOR with register reuse: values == circuit on masked inputs; active label == zero-label ^ value*delta at every register", bounds="n=2, 3 instructions, all labels/delta/masked inputs symbolic", functions=["mpc::protocol::evaluate (loop segment)"], panic_prop="C01")
+H("protocol", "c01_free_not_evaluator_labels", needs_segment=["evaluate_loop"],
+  what="evaluator loop, Input/Input/NOT with register reuse: NOT flips the masked value and keeps the active label", bounds="n=2, 3 instructions", functions=["mpc::protocol::evaluate (loop segment)"], panic_prop="C01")
 for row in (0, 1, 2, 3):
     H("protocol", f"c01_and_gate_full_n3_row{row}", tier="thorough", timeout=2400, mem_gb=30, needs_segment=["garbler_rows", "evaluator_rows", "garbler_row_labels", "evaluate_and_arm_n3"],
       what="one AND gate end to end for n=3 (two garblers, evaluator): rows + row labels + the evaluator's AND arm composed: honest rows are accepted, the evaluator obtains the masked AND value and label0 ^ value*delta for both garblers",
@@ -124,12 +135,16 @@ H("protocol", "c07_ip_labels_one_label_per_wire", needs_segment=["ip_labels"],
 H("faand", "c04_check_dvalue_tail_n2_b3", needs_segment=["check_dvalue_tail"],
   what="d-value opening: Ok(d) => peer opened exactly as many d-bits and MACs as the bucket needs, every MAC verifies, d == own ^ peer; no inner length panics",
   bounds="n=2, one bucket of 3 triples (2 d-values), peer inner vector lengths 0..=3 free", functions=["mpc::faand::check_dvalue (segment after scatter)"], panic_prop="C08")
+H("faand", "c04_check_dvalue_tail_n3_b2", needs_segment=["check_dvalue_tail"],
+  what="d-value opening with two peers: Ok(d) => both opened exactly one d-bit + one MAC that verifies; d == xor of all openings", bounds="n=3, own index 0, one bucket of 2 triples, peer inner lengths 0..=2", functions=["mpc::faand::check_dvalue (segment after scatter)"], panic_prop="C08")
 H("faand", "c04_bcast_verify_tail_n3", needs_segment=["bcast_verify_tail"],
   what="verified broadcast: Ok => every other party echoed exactly the hash of this party's own view of the third party's message", bounds="n=3, own index 0, arbitrary Option patterns and 128-bit hashes", functions=["mpc::faand::broadcast_verification (segment after scatter)"], panic_prop="C08")
 H("faand", "c04_flaand_tail_n2", needs_segment=["flaand_tail"],
   what="leaky AND final check: Ok => XOR of all parties' H values == 0 for every triple", bounds="n=2, 2 triples, BLAKE3 verdicts arbitrary", functions=["mpc::faand::flaand (segment after the H broadcast)"], panic_prop="C08")
 H("faand", "c04_fabitn_check_n2", needs_segment=["fabitn_check"],
   what="aBit check: Ok => opened MAC == XOR of the own keys selected by the coefficient bits ^ x*delta, for every combination", bounds="n=2, 2 combinations, 3 authenticated bits, all values symbolic", functions=["mpc::faand::fabitn (step 3c/3d segment)", "mpc::faand::chunked_update_with_rbits::<u128>"], panic_prop="C08")
+H("faand", "c04_shared_rng_open_n2", needs_segment=["shared_rng_open"],
+  what="coin tossing: Ok => the peer's decommitment was accepted by the commitment check; seed == xor of all contributions", bounds="n=2, all 32-byte contributions symbolic, BLAKE3 verdict arbitrary", functions=["mpc::faand::shared_rng (segment after the decommitment round)"], panic_prop="C08", stubs=["open_commitment -> arbitrary verdict (logged)", "ChaCha20Rng::from_seed(seed) -> seed (cpuid inline asm is not supported by Kani)"])
 H("kos", "c04_kos_check", needs_segment=["kos_check"],
   what="KOS correlation check: Ok => (check ^ x*s) == (t0, t1) (KOSConsistencyCheckFailed otherwise), with the carry-less product an arbitrary value", bounds="all 128-bit blocks", functions=["ot_core::kos::Sender::send_setup (segment after the receive)"], panic_prop="C08", stubs=["Block::clmul -> arbitrary (lo, hi) (textual substitution)"])
 H("faand", "c04_beaver_check_n2", needs_segment=["beaver_check"],
@@ -165,6 +180,10 @@ H("gf128", "c20_clmul128_karatsuba_basis_times_full", what="scalar::clmul128 rec
 H("gf128", "c20_clmul128_karatsuba_windows8", tier="thorough", timeout=3600, what="scalar::clmul128 recombination (clmul64 replaced by its definition) == schoolbook on two arbitrary 8-bit windows at arbitrary positions", bounds="8-bit windows, shifts 0..=120 each", functions=["block::gf128::scalar::clmul128"], panic_prop="C20", stubs=["scalar::clmul64 -> schoolbook definition"])
 H("gf128", "c20_pclmul_clmul128_basis_times_full", sub="pclmul", what="PCLMUL path clmul::clmul128 (instruction replaced by Intel's definition): same basis x full obligation", bounds="all i < 128, all b", functions=["block::gf128::clmul::clmul128"], panic_prop="C20", stubs=["_mm_clmulepi64_si128 -> 64x64 schoolbook of the selected halves"])
 H("gf128", "c20_pclmul_reduce_eq_bitserial", sub="pclmul", what="PCLMUL path clmul::gf128_reduce == bit-serial reduction", bounds="all 2^256 inputs", functions=["block::gf128::clmul::gf128_reduce"], panic_prop="C20", stubs=["_mm_clmulepi64_si128 -> definition"])
+H("aes_hash", "c20_cr_hash_structure", needs_segment=["cr_hash_block_body"],
+  what="cr_hash_block(x) == pi(x) ^ x with pi (the fixed-key AES permutation) an arbitrary function", bounds="all blocks", functions=["crypto::aes_hash::AesHash::cr_hash_block (whole body)"], panic_prop="C20", stubs=["Aes128::encrypt_block -> arbitrary function on the evaluated points (textual substitution)"])
+H("aes_hash", "c20_tccr_hash_structure", needs_segment=["tccr_hash_block_body"],
+  what="tccr_hash_block(t, x) == pi(pi(x) ^ t) ^ pi(x) with pi an arbitrary function (in particular the tweak is used, and used on pi(x))", bounds="all blocks and tweaks", functions=["crypto::aes_hash::AesHash::tccr_hash_block (whole body)"], panic_prop="C20", stubs=["Aes128::encrypt_block -> arbitrary function on the evaluated points (textual substitution)"])
 H("transpose", "c20_portable_transpose_16x16", what="portable::transpose_bitmatrix: out[c][r] == in[r][c]", bounds="every 16x16 input", functions=["transpose::portable::transpose_bitmatrix"], panic_prop="C20", stubs=["_mm_sll_epi64 -> Intel SDM model"])
 H("transpose", "c20_portable_transpose_16x24", tier="thorough", timeout=1800, what="same", bounds="every 16x24 input", functions=["transpose::portable::transpose_bitmatrix"], panic_prop="C20")
 H("transpose", "c20_portable_transpose_32x16", tier="thorough", timeout=1800, what="same", bounds="every 32x16 input", functions=["transpose::portable::transpose_bitmatrix"], panic_prop="C20")
@@ -178,6 +197,7 @@ H("kos", "c11_kos_correlated_output_stage", needs_segment=["kos_send_corr", "kos
 H("ot", "c11_block_u128_byte_order", what="block_to_u128(Block::from(x.to_be_bytes())) == x; XOR commutes; big-endian over block bytes", bounds="all 2^128 values", functions=["ot::block_to_u128", "Block::from<[u8;16]>"], panic_prop="C11")
 
 # C09
+H("serde", "c09_len_scalars", what="serialize length of u128 / (bool,Mac) / u64 is value-independent and fixed-width (16 / 17 / 8)", bounds="all values", functions=["utils::serde::serialize", "bincode::serde::encode_to_vec (legacy config)"], panic_prop="C09")
 for nm, what in (("c09_len_vec_opt_bool_mac", "Vec<Option<(bool,Mac)>>"), ("c09_len_vec_opt_bool_and_label", "Vec<Option<bool>>, Vec<Option<Label>>, Vec<Option<(bool,Label)>>"), ("c09_len_u128_family", "Vec<u128>, Vec<(bool,u128)>, Vec<(bool,bool,Mac,Mac)>, Vec<(bool,bool)>, Vec<u32>"), ("c09_len_dvalues_and_row", "Vec<(Vec<bool>,Vec<Mac>)>, (bool,Vec<Mac>,Label)"), ("c09_len_blocks_and_bytes", "Vec<Block>, Vec<(Block,Block,Block)>, Vec<Vec<u8>>"), ("c09_len_share_n2", "Vec<Share>")):
     H("serde", nm, tier="thorough" if nm == "c09_len_blocks_and_bytes" else "quick", timeout=1200, what=f"serialize length of {what} is the same for all leaf values of one shape (self-composition) and equals 8 + sum of fixed widths", bounds="vector lengths <= 3, fixed Option pattern, all leaf values symbolic", functions=["utils::serde::serialize", "bincode::serde::encode_to_vec (legacy config)"], panic_prop="C09")
 H("garble", "c09_encrypt_plaintext_len_value_independent", needs_segment=["encrypt_plaintext_len"], timeout=1200,
@@ -185,7 +205,7 @@ H("garble", "c09_encrypt_plaintext_len_value_independent", needs_segment=["encry
 H("garble", "c09_key_and_nonce_injective", what="AEAD (key, nonce) is fixed-size and injective in (label_x, label_y, w as u64, row); layout big-endian", bounds="full width", functions=["mpc::garble::key_and_nonce"], panic_prop="C09")
 
 # C08 decoders
-for nm, ty, n, t in (("c08_decode_vec_bool_12", "Vec<bool>", 12, "quick"), ("c08_decode_vec_u128_12", "Vec<u128>", 12, "quick"), ("c08_decode_vec_bool_u128_12", "Vec<(bool,u128)>", 12, "quick"), ("c08_decode_vec_opt_bool_12", "Vec<Option<bool>>", 12, "quick"), ("c08_decode_vec_opt_bool_mac_12", "Vec<Option<(bool,Mac)>>", 12, "quick"), ("c08_decode_vec_opt_label_12", "Vec<Option<Label>>", 12, "quick"), ("c08_decode_vec_vec_u8_18", "Vec<Vec<u8>>", 18, "thorough"), ("c08_decode_vec_block_12", "Vec<Block>", 12, "thorough"), ("c08_decode_row_25", "(bool,Vec<Mac>,Label)", 25, "thorough"), ("c08_decode_vec_dvalues_18", "Vec<(Vec<bool>,Vec<Mac>)>", 18, "thorough"), ("c08_decode_vec_bool_9", "Vec<bool>", 9, "quick"), ("c08_decode_vec_opt_bool_mac_9", "Vec<Option<(bool,Mac)>>", 9, "thorough"), ("c08_decode_vec_bool_8", "Vec<bool>", 8, "quick")):
+for nm, ty, n, t in (("c08_decode_vec_bool_12", "Vec<bool>", 12, "quick"), ("c08_decode_vec_u128_12", "Vec<u128>", 12, "quick"), ("c08_decode_vec_bool_u128_12", "Vec<(bool,u128)>", 12, "quick"), ("c08_decode_vec_opt_bool_12", "Vec<Option<bool>>", 12, "quick"), ("c08_decode_vec_opt_bool_mac_12", "Vec<Option<(bool,Mac)>>", 12, "quick"), ("c08_decode_vec_opt_label_12", "Vec<Option<Label>>", 12, "quick"), ("c08_decode_vec_vec_u8_18", "Vec<Vec<u8>>", 18, "thorough"), ("c08_decode_vec_block_12", "Vec<Block>", 12, "thorough"), ("c08_decode_row_25", "(bool,Vec<Mac>,Label)", 25, "thorough"), ("c08_decode_vec_dvalues_18", "Vec<(Vec<bool>,Vec<Mac>)>", 18, "thorough"), ("c08_decode_vec_bool_9", "Vec<bool>", 9, "quick"), ("c08_decode_vec_opt_bool_mac_9", "Vec<Option<(bool,Mac)>>", 9, "thorough"), ("c08_decode_vec_bool_8", "Vec<bool>", 8, "quick"), ("c08_decode_vec_u32_12", "Vec<u32>", 12, "quick"), ("c08_decode_vec_opt_u128_12", "Vec<Option<u128>>", 12, "quick"), ("c08_decode_vec_bool_bool_12", "Vec<(bool,bool)>", 12, "thorough"), ("c08_decode_vec_bbmm_12", "Vec<(bool,bool,Mac,Mac)>", 12, "thorough"), ("c08_decode_vec_opt_bool_label_12", "Vec<Option<(bool,Label)>>", 12, "thorough")):
     H("serde", nm, tier=t, timeout=1500, what=f"deserialize::<{ty}> returns Ok or Err for every byte string: no panic/overflow/OOB, no failed allocation for any 64-bit length prefix", bounds=f"every byte string of length {n}", functions=["utils::serde::deserialize", "bincode::serde::decode_from_slice (legacy config)"], panic_prop="C08")
 
 
@@ -213,6 +233,7 @@ variant("c04_check_dvalue_tail_n2_b3", "__c10")
 variant("c07_fashare_3c_n2", "__c04")
 variant("c07_fashare_3c_n2", "__c10")
 variant("c04_beaver_check_n2", "__c10")
+variant("c04_bcast_verify_tail_n3", "__c03")
 
 
 def hs(*names):
@@ -233,7 +254,7 @@ PROPS["C01"] = dict(
     outside="totals < 2^40; at most 10 chunks (implied by the batch-size lemma); small-value iterator class total<=24/chunk<=8.",
     assumptions=[FMT, TRACING, "flush pattern 'push; if len >= batch flush; ...; if !empty flush' re-stated in c01_flush_pattern_matches_chunk_iter"],
     harnesses=[h for h in by_prefix("c01_") if not h["name"].endswith("__c10")] + hs("c03_evaluate_and_arm_n2_row0__c01", "c03_evaluate_and_arm_n2_row3__c01", "c02_output_tail_n2_regs01__c01", "c02_output_tail_n2_regs11__c01"),
-    segments=["output_tail", "evaluate_and_arm_n3", "init_and_shares_loop", "garbler_loop", "garbler_rows", "evaluator_rows", "garbler_row_labels", "evaluate_and_arm"],
+    segments=["output_tail", "evaluate_and_arm_n3", "evaluate_loop", "garble_garbler_full", "init_and_shares_loop", "garbler_loop", "garbler_rows", "evaluator_rows", "garbler_row_labels", "evaluate_and_arm"],
 )
 
 PROPS["C02"] = dict(
@@ -244,7 +265,7 @@ PROPS["C02"] = dict(
     outside="n=2; max_reg_count=2; one bucket of 3; message *sequences* and cryptographic primitives are outside.",
     assumptions=[FMT, TRACING, SEG, N2],
     segments=["output_tail", "check_dvalue_tail", "output_label_check"],
-    harnesses=hs("c02_output_tail_n2_regs01", "c02_output_tail_n2_regs11", "c02_output_tail_n2_regs10", "c04_check_dvalue_tail_n2_b3__c02", "c03_output_label_check_n2_regs01__c02", "c03_output_label_check_n2_regs11__c02"),
+    harnesses=hs("c02_output_tail_n2_regs01", "c02_output_tail_n2_regs11", "c02_output_tail_n2_regs10", "c04_check_dvalue_tail_n2_b3__c02", "c03_output_label_check_n2_regs01__c02", "c03_output_label_check_n2_regs11__c02", "c02_output_tail_n3", "c04_check_dvalue_tail_n3_b2"),
 )
 
 PROPS["C03"] = dict(
@@ -254,8 +275,8 @@ PROPS["C03"] = dict(
     explanation="Segment harnesses over input_processing() and output().",
     outside="n=2; <=3 registers; cryptographic primitives outside.",
     assumptions=[FMT, TRACING, SEG, N2],
-    segments=["ip_mid", "ip_post", "output_tail", "output_label_check", "evaluate_and_arm"],
-    harnesses=hs("c03_ip_mid_n2", "c03_ip_post_n2", "c03_output_label_check_n2_regs01", "c03_output_label_check_n2_regs11", "c02_output_tail_n2_regs11__c03", "c02_output_tail_n2_regs01__c03") + [h for h in by_prefix("c03_evaluate_and_arm") if "__" not in h["name"]],
+    segments=["ip_mid", "ip_post", "output_tail", "output_label_check", "evaluate_and_arm", "bcast_verify_tail"],
+    harnesses=hs("c04_bcast_verify_tail_n3__c03", "c03_ip_mid_n2", "c03_ip_mid_n3", "c03_ip_post_n2", "c03_output_label_check_n2_regs01", "c03_output_label_check_n2_regs11", "c02_output_tail_n2_regs11__c03", "c02_output_tail_n2_regs01__c03") + [h for h in by_prefix("c03_evaluate_and_arm") if "__" not in h["name"]],
 )
 
 PROPS["C04"] = dict(
@@ -265,8 +286,8 @@ PROPS["C04"] = dict(
     explanation="Segment harnesses over check_dvalue, fashare (3c, 3d), beaver_aand.",
     outside="n=2; orderings over message histories and coin-toss reuse are outside the technique's reach.",
     assumptions=[FMT, TRACING, SEG, N2, "open_commitment(..) -> arbitrary bool inside the fashare_3d segment (textual substitution)", "RHO shadowed by a local const 2 inside the fashare segments"],
-    segments=["check_dvalue_tail", "fashare_3c", "fashare_3d", "beaver_check", "bcast_verify_tail", "flaand_tail", "fabitn_check", "kos_check"],
-    harnesses=hs("c04_check_dvalue_tail_n2_b3", "c07_fashare_3c_n2__c04", "c04_fashare_3d_n2", "c04_beaver_check_n2", "c04_bcast_verify_tail_n3", "c04_flaand_tail_n2", "c04_fabitn_check_n2", "c04_kos_check"),
+    segments=["check_dvalue_tail", "fashare_3c", "fashare_3d", "beaver_check", "bcast_verify_tail", "flaand_tail", "fabitn_check", "kos_check", "shared_rng_open"],
+    harnesses=hs("c04_check_dvalue_tail_n2_b3", "c04_check_dvalue_tail_n3_b2", "c07_fashare_3c_n2__c04", "c04_fashare_3d_n2", "c04_beaver_check_n2", "c04_bcast_verify_tail_n3", "c04_flaand_tail_n2", "c04_fabitn_check_n2", "c04_kos_check", "c04_shared_rng_open_n2"),
 )
 
 PROPS["C05"] = dict(
@@ -296,10 +317,10 @@ PROPS["C08"] = dict(
     level_text="Bounded model checking that hostile bytes and ill-shaped (well-typed) messages give Ok/Err, never a panic: the real bincode decoder for the engine's wire types over every byte string of the stated length (all 2^64 length prefixes, allocation sizes checked), and every cut protocol segment over arbitrary inner lengths / Option patterns.",
     level_note="Partial: decoding layer + the panic-freedom of the cut segments. Not covered: vanishing peers, hangs, bounded time (async/concurrency). " + SEG,
     explanation="Kani/CBMC on utils::serde::deserialize and on all segment harnesses (generic CBMC failures are attributed to C08).",
-    outside="byte strings of length 8, 9, 12 (18/25 in thorough); <= (N-8)/elem elements.",
+    outside="byte strings of length 8, 9, 12 (18/25 in thorough); <= (N-8)/elem elements. Wire types whose decoder did not finish inside 24 GB / 20 min at 12 bytes are NOT covered: Vec<Block>-tuples, Vec<GarbledGate>, Vec<Commitment>(-tuples) (32-byte array visitors).",
     assumptions=[FMT, TRACING, SEG],
     segments=["check_dvalue_tail", "fashare_3c", "fashare_3d", "ip_mid", "ip_post", "output_tail", "output_label_check", "beaver_check", "evaluate_and_arm", "recv_vec_len_check", "scatter_len_precheck", "bcast_verify_tail", "flaand_tail", "fabitn_check", "kos_check", "ip_labels", "output_share_msg", "output_lambda_msg", "ip_pre"],
-    harnesses=[h for h in by_prefix("c08_")] + hs("c09_ip_pre_pattern_independent_of_shares", "c04_check_dvalue_tail_n2_b3", "c07_fashare_3c_n2", "c04_fashare_3d_n2", "c03_ip_mid_n2", "c03_ip_post_n2", "c02_output_tail_n2_regs11", "c03_output_label_check_n2_regs01", "c04_beaver_check_n2", "c04_bcast_verify_tail_n3", "c04_flaand_tail_n2", "c04_fabitn_check_n2", "c04_kos_check", "c05_output_share_msg_n3", "c05_output_lambda_msg_n3", "c07_ip_labels_one_label_per_wire") + [h for h in by_prefix("c03_evaluate_and_arm") if "__" not in h["name"]],
+    harnesses=[h for h in by_prefix("c08_")] + hs("c09_ip_pre_pattern_independent_of_shares", "c03_ip_mid_n3", "c04_check_dvalue_tail_n3_b2", "c04_check_dvalue_tail_n2_b3", "c07_fashare_3c_n2", "c04_fashare_3d_n2", "c03_ip_mid_n2", "c03_ip_post_n2", "c02_output_tail_n2_regs11", "c03_output_label_check_n2_regs01", "c04_beaver_check_n2", "c04_bcast_verify_tail_n3", "c04_flaand_tail_n2", "c04_fabitn_check_n2", "c04_kos_check", "c05_output_share_msg_n3", "c05_output_lambda_msg_n3", "c07_ip_labels_one_label_per_wire") + [h for h in by_prefix("c03_evaluate_and_arm") if "__" not in h["name"]],
 )
 
 PROPS["C09"] = dict(
@@ -354,6 +375,7 @@ PROPS["C20"] = dict(
     outside="transpose shapes 16x16/16x24/32x16; clmul64 full correctness only via basis x full + 16-bit windows (thorough) unless the E2 lemma run is listed.",
     assumptions=[FMT, TRACING, "_mm_clmulepi64_si128 and _mm_sll_epi64 replaced by their Intel SDM definitions", "bilinearity of the recombination is a structural (paper) argument: XOR/shift of bilinear products"],
     harnesses=by_prefix("c20_"),
+    segments=["cr_hash_block_body", "tccr_hash_block_body"],
     extra=["e2.run:c20_queries"],
     uses_e2=True,
 )
